@@ -155,14 +155,41 @@ class Worlds:
         for n in order:
             c = cond[n.id]
             if n.kind == 'branch' and n.label in (True, False):
-                t = self.mask(self._test_of(n))
-                c &= t if n.label else (self.all & ~t)
+                fm = self._flag_masks(n, cond)
+                if fm is not None:
+                    c &= fm[0] if n.label else fm[1]
+                else:
+                    t = self.mask(self._test_of(n))
+                    c &= t if n.label else (self.all & ~t)
                 cond[n.id] = c
             for s in succs(n):
                 if (n.id, s.id) in back:
                     continue
                 cond[s.id] |= c
         self._cond = cond
+
+    def _flag_masks(self, b, cond):
+        """A test on a boolean flag (`if done:` / `if not done:`) whose reaching definitions are all constant assignments:
+        (worlds in which a truthy constant was assigned, worlds in which a falsy one was) - the flag is not a free atom, it
+        repeats the conditions under which it was set."""
+        e, flip = b.test, False
+        while isinstance(e, ast.UnaryOp) and isinstance(e.op, ast.Not):
+            e, flip = e.operand, not flip
+        if not isinstance(e, ast.Name):
+            return None
+        defs = self.g._rd(e.id).get(b.id, set())  # noqa: SLF001
+        if not defs:
+            return None
+        tm = fm = 0
+        for d in defs:
+            v = self.g.def_value(d, e.id) if d.kind == 'stmt' else None
+            if not isinstance(v, ast.Constant):
+                return None
+            if v.value:
+                tm |= cond.get(d.id, 0)
+            else:
+                fm |= cond.get(d.id, 0)
+        return (fm, tm) if flip else (tm, fm)
 
     def cond(self, n) -> int:
         """Worlds in which node n is evaluated on some path."""
